@@ -165,6 +165,8 @@ fn boundary_loops(boundary_edges: &[[u32; 2]]) -> Vec<Vec<u32>> {
         let mut current = boundary_edges[first][1];
 
         while current != start_id {
+            #[cfg(feature = "verif")]
+            crate::verif_hooks::tick("edges::boundary_loops");
             working.push(current);
 
             // Prefer an unused edge which leaves the current vertex, otherwise take any unused
